@@ -562,6 +562,32 @@ class Interp(BuiltinsMixin):
                 return Coll(v.oid, h.kind, h.parts, h.havoc)
         return v
 
+    def snapshot_deep(self, v, path, seen=()):
+        """immutable description of a condition: every container reachable
+        through the term is replaced by a snapshot (instances stay refs)"""
+        if isinstance(v, Obj):
+            h = path.heap.get(v.oid)
+            if h is None or h.kind not in ('list', 'set', 'dict') or \
+                    v.oid in seen:
+                return v
+            return self.snapshot_deep(Coll(v.oid, h.kind, h.parts, h.havoc),
+                                      path, seen + (v.oid,))
+        if isinstance(v, Coll):
+            return Coll(v.oid, v.kind, [Part(
+                q.kind, self.snapshot_deep(q.val, path, seen),
+                key=None if q.key is None else
+                self.snapshot_deep(q.key, path, seen),
+                gens=[(g, self.snapshot_deep(it, path, seen))
+                      for (g, it) in q.gens],
+                conds=[(self.snapshot_deep(c, path, seen), pol)
+                       for (c, pol) in q.conds]) for q in v.parts], v.havoc)
+        if isinstance(v, Tup):
+            return Tup([self.snapshot_deep(x, path, seen) for x in v.items])
+        if isinstance(v, App):
+            return App(v.op, *[self.snapshot_deep(x, path, seen)
+                               if isinstance(x, V) else x for x in v.args])
+        return v
+
     def generic_loop(self, st, it, fr, path):
         """`for`/`while` over a symbolic iterable: the body is interpreted
         once on a generic element; container contributions made by the body
@@ -961,8 +987,7 @@ class Interp(BuiltinsMixin):
                 h.vars[pn] = kw.pop(pn)
             elif i >= first_default:
                 dn = defaults[i - first_default]
-                r = self.eval(dn, fr, path)
-                h.vars[pn] = r[0][1]
+                h.vars[pn] = self.eval_one(dn, fr, path)
             else:
                 return 'missing argument ' + pn
         if a.vararg is not None:
@@ -971,7 +996,7 @@ class Interp(BuiltinsMixin):
             if ka.arg in kw:
                 h.vars[ka.arg] = kw.pop(ka.arg)
             elif kd is not None:
-                h.vars[ka.arg] = self.eval(kd, fr, path)[0][1]
+                h.vars[ka.arg] = self.eval_one(kd, fr, path)
             else:
                 return 'missing keyword argument ' + ka.arg
         if kw:
